@@ -7,6 +7,7 @@
   matches.  That the engine finds the leftmost non-overlapping RE2 matches, and the meaning of
   the flags, is the contract of Go's regexp package (trusted base).
 -/
+import JsonataModel.Model.Lexer
 import JsonataModel.Model.Regex
 import JsonataModel.Model.Interp
 import JsonataModel.Lemmas.Monad
@@ -291,8 +292,9 @@ theorem fact_regex_functions :
     (eventsOf "expandReplaceString").contains "call:runesToNumbers" = true := by
   decide
 
-/-- the flag letters the lexer accepts after a literal -/
-theorem fact_regex_flags : Generated.regexFlagRunes = [105, 109, 115] := by decide
+/-- the flag letters the model's lexer accepts after a literal are i, m, s (tied to the implementation by the
+    harness's sweep over every letter as a flag, not by reading the source) -/
+theorem regex_flag_letters : ((List.range 128).filter Jsonata.Lex.isRegexFlag) = [105, 109, 115] := by decide
 
 /-! ### non-vacuity -/
 
